@@ -656,6 +656,28 @@ func totalAdversary(f Fields) (dec string, b []byte) {
 		return "gsub", totalGsub81Aliased(num("nb", 2), num("nl", 2))
 	case "gpos21-alias":
 		return "gpos", totalGpos21Aliased(num("k", 4))
+	case "gpos51-alias": // GPOS 5.1, markClassCount 0, componentCount 65535, n aliased LigatureAttach offsets
+		n := num("n", 2)
+		st := []byte{0, 1, 0, 12, 0, 18, 0, 0, 0, 24, 0, 26} // fmt, markCov@12, ligCov@18, mcc 0, markArray@24, ligArray@26
+		st = append(st, 0, 1, 0, 1, 0, 5)                    // mark coverage: glyph 5
+		st = append(st, 0, 2, 0, 1, 0, 10)                   // ligature coverage: one range 10..10+n-1
+		st[len(st)-6], st[len(st)-5] = 0, 2
+		lc := []byte{0, 2, 0, 1, 0, 10}
+		lc = append(lc, totalBe16b(10+n-1)...)
+		lc = append(lc, 0, 0)
+		st = st[:18]
+		st = append(st, lc...)
+		mao := len(st)
+		st = append(st, 0, 0) // mark array: no marks
+		lao := len(st)
+		copy(st[8:], totalBe16b(mao))
+		copy(st[10:], totalBe16b(lao))
+		st = append(st, totalBe16b(n)...)
+		for i := 0; i < n; i++ {
+			st = append(st, totalBe16b(2+2*n)...)
+		}
+		st = append(st, 0xff, 0xff) // componentCount 65535
+		return "gpos", totalGtabWrap(5, st)
 	case "chain3-alias":
 		return "gsub", totalChain3Aliased(num("k", 2))
 	case "t2-nested-gsubrs": // §9 #26
@@ -2553,6 +2575,49 @@ func totalJoinFont(scaler uint32, tabs map[string][]byte) []byte {
 	return b
 }
 
+// totalJoinFontInflated: like totalJoinFont, but table `big` is stored LAST in the file (highest
+// offset), its directory record claims `extra` bytes more than exist (reaching beyond the end of the
+// file), and the directory is ordered so that `big` is NOT the last record.
+func totalJoinFontInflated(scaler uint32, tabs map[string][]byte, big string, extra int) []byte {
+	names := make([]string, 0, len(tabs))
+	for n := range tabs {
+		if n != big {
+			names = append(names, n)
+		}
+	}
+	sort.Strings(names)
+	dir := append([]string{big}, names...) // big first in the directory
+	data := append(append([]string{}, names...), big)
+	offs := map[string]int{}
+	off := 12 + 16*len(dir)
+	for _, n := range data {
+		offs[n] = off
+		off += (len(tabs[n]) + 3) &^ 3
+	}
+	b := totalBe32b(int(scaler))
+	b = append(b, totalBe16b(len(dir))...)
+	b = append(b, 0, 0, 0, 0, 0, 0)
+	for _, n := range dir {
+		l := len(tabs[n])
+		if n == big {
+			l += extra
+		}
+		b = append(b, n...)
+		b = append(b, 0, 0, 0, 0)
+		b = append(b, totalBe32b(offs[n])...)
+		b = append(b, totalBe32b(l)...)
+	}
+	for _, n := range data {
+		b = append(b, tabs[n]...)
+		if n != big {
+			for len(b)%4 != 0 {
+				b = append(b, 0)
+			}
+		}
+	}
+	return b
+}
+
 type totalFontVariant struct {
 	how  string
 	file []byte
@@ -2585,6 +2650,16 @@ func totalFontVariants(file []byte) []totalFontVariant {
 		out = append(out, totalFontVariant{"drop:" + strings.TrimSpace(a), totalJoinFont(scaler, clone(a))})
 		for _, b := range names[i+1:] {
 			out = append(out, totalFontVariant{"drop2", totalJoinFont(scaler, clone(a, b))})
+		}
+	}
+	// directory records reaching beyond the end of the file, the inflated table not being the last
+	// record of the directory (header.Read must look at the table with the highest END, not at the
+	// last record): decoders that trust the size of their section then allocate out of proportion
+	if len(names) >= 2 {
+		for _, n := range names {
+			for _, extra := range []int{1, 2, 1000, 1 << 16, 1 << 20, 1 << 26} {
+				out = append(out, totalFontVariant{"inflate:" + strings.TrimSpace(n), totalJoinFontInflated(scaler, tabs, n, extra)})
+			}
 		}
 	}
 	word := func(t []byte, at, delta int) []byte {
@@ -2816,13 +2891,19 @@ func areaTotal(c *Ctx) {
 		if c.Tier != "thorough" && len(vv) > 220 {
 			step = len(vv)/220 + 1
 		}
-		for i := r.Intn(step); i < len(vv); i += step {
+		for i := 0; i < len(vv); i++ {
+			if !strings.HasPrefix(vv[i].how, "inflate:") && (i+r.Intn(1))%step != 0 {
+				continue
+			}
 			how := vv[i].how
 			if strings.HasPrefix(how, "count:") {
 				if j := strings.IndexAny(how, "+-"); j > 0 {
 					c.Stat("font-assembly", how[:j])
 				}
 				how = "font-count-mismatch"
+			} else if strings.HasPrefix(how, "inflate:") {
+				c.Stat("font-assembly", how)
+				how = "font-table-length-beyond-eof"
 			} else {
 				c.Stat("font-assembly", how)
 				how = "font-tables-removed"
@@ -2914,6 +2995,7 @@ func areaTotal(c *Ctx) {
 	adv("kind=gsub81-alias nb=1 nl=1 acc=0")
 	adv("kind=gpos21-alias k=20 acc=0")
 	adv("kind=chain3-alias k=1 acc=0")
+	adv("kind=gpos51-alias n=1 acc=0")
 	adv("kind=gdef-alias sets=20 acc=0")
 	adv("kind=gdef-alias sets=2000 acc=0")
 	adv("kind=gdef-distinct sets=2")
